@@ -561,7 +561,14 @@ class SigmaCorrelationRule(SigmaRuleBase, ProcessingItemTrackingMixin):
                 # Simple rule reference
                 rules = [SigmaRuleReference(rules_value)]
             elif isinstance(rules_value, list):
-                rules = [SigmaRuleReference(rule) for rule in rules_value]
+                if all(isinstance(rule, str) for rule in rules_value):
+                    rules = [SigmaRuleReference(rule) for rule in rules_value]
+                else:
+                    errors.append(
+                        sigma_exceptions.SigmaCorrelationRuleError(
+                            "Rule references must be strings.", source=source
+                        )
+                    )
             else:
                 errors.append(
                     sigma_exceptions.SigmaCorrelationRuleError(
